@@ -282,6 +282,14 @@ impl Session {
 
 #[cfg(feature = "verif-hooks")]
 impl Session {
+    /// A session with the given keys and nothing else (verification hook).
+    pub(crate) fn verif_from_keys(encryption_key: [u8; 16], decryption_key: [u8; 16]) -> Self {
+        Session::new(Keys {
+            encryption_key,
+            decryption_key,
+        })
+    }
+
     /// (encryption key, decryption key) of the current keys and of the old keys, if any
     /// (verification hook, read-only).
     #[allow(clippy::type_complexity)]
